@@ -38,8 +38,14 @@ void vp_native_assert_fail(const char *msg, const char *file, int line)
 void vp_native_witness(const char *tag) { (void)tag; }
 #  define VP_CHOICE(T) T v = (T)vp_next(); return v
 #else
-uint64_t nondet_u64(void);
-#  define VP_CHOICE(T) T v = (T)nondet_u64(); return v
+uint8_t  nondet_uint8_t(void);
+uint16_t nondet_uint16_t(void);
+uint32_t nondet_uint32_t(void);
+uint64_t nondet_uint64_t(void);
+int      nondet_int(void);
+long     nondet_long(void);
+size_t   nondet_size_t(void);
+#  define VP_CHOICE(T) T v = nondet_##T(); return v
 #endif
 
 uint8_t  vp_u8(void)  { VP_CHOICE(uint8_t); }
